@@ -1,9 +1,9 @@
 (* C12 - The script listing and position marker show exactly what executes next. Statements only; proofs in ListingProofs.v.
    Model: BV.Cli (script_lines as built by main(): listing_sections / listing / session_listing, fn_print's marker: marked_line),
    BV.Session (curr_op_seq bookkeeping inside StepScript(InterpreterEnv&) / RewindScript).
-   Proved for sessions over ONE script (btcdeb <script> [stack...]) and for legacy spends with a scriptSig and a (non-P2SH) scriptPubKey
-   section; sessions with a P2SH or taproot-commitment section are decided by the pty correspondence only
-   (C12_marker_p2sh_and_taproot_sections is not proved). *)
+   Proved for sessions over ONE script (btcdeb <script> [stack...]), for legacy spends with a scriptSig and a (non-P2SH) scriptPubKey
+   section, and for tapscript spends (commitment lines, then the committed script); sessions with a P2SH section are decided by the pty
+   correspondence only (C12_marker_p2sh_section is not proved). *)
 From BV Require Import Base Script Interp Session Value Cli ListingProofs.
 Local Open Scope Z_scope.
 
@@ -66,7 +66,40 @@ Theorem C12_two_section_marker : forall script succ v, succ <> [] -> inv2 script
   end.
 Proof. exact (two_sections_marker (fun _ => true) (fun _ _ _ _ => true) (fun b => b)). Qed.
 
+(* --- tapscript spends: one line per commitment step (the node that step hashes, then the tweak check), then the committed script *)
+Theorem C12_tapscript_listing : forall c t0 script stack ed, (c_sigver c =? SV_TAPSCRIPT) = true ->
+  i_p2sh (setup_env c script stack [] ed (Some t0)) = false ->
+  session_listing c (setup_env c script stack [] ed (Some t0)) = tap_listing t0 script.
+Proof. exact session_listing_tap. Qed.
+
+Theorem C12_tapscript_invariant_start : forall c t0 script stack ed, 0 <= t_path_len t0 -> t_i t0 = 0 ->
+  i_p2sh (setup_env c script stack [] ed (Some t0)) = false -> inv_tap t0 script (setup_env c script stack [] ed (Some t0)).
+Proof. exact (inv_tap_init (fun _ => true) (fun _ _ _ _ => true) (fun b => b)). Qed.
+
+Theorem C12_tapscript_invariant_step : forall low_s tap_tweak_ok sha256 c t0 script v v', 0 <= t_path_len t0 ->
+  inv_tap t0 script v -> Session.dbg_step low_s tap_tweak_ok sha256 c v = (v', SOk) -> inv_tap t0 script v'.
+Proof. exact inv_tap_step. Qed.
+
+Theorem C12_tapscript_marker : forall t0 script v, 0 <= t_path_len t0 -> inv_tap t0 script v ->
+  match i_tce v with
+  | Some t =>
+      if t_i t <? t_path_len t0
+      then marked_line (tap_listing t0 script) (i_seq v) =
+           Some (numbered (i_seq v) (TXT_BRANCH ++ hexstr (firstn 32 (skipn (Z.to_nat (Gen.Consts.TAPROOT_CONTROL_BASE_SIZE + Gen.Consts.TAPROOT_CONTROL_NODE_SIZE * t_i t)) (t_control t0)))))
+      else marked_line (tap_listing t0 script) (i_seq v) = Some (numbered (i_seq v) (TXT_TWEAK ++ hexstr (firstn 32 (skipn 1 (t_control t0)))))
+  | None =>
+      match i_pc v with
+      | _ :: _ => forall op pc', get_op (i_pc v) = (Some op, pc') -> marked_line (tap_listing t0 script) (i_seq v) = Some (numbered (i_seq v) (op_line op))
+      | [] => marked_line (tap_listing t0 script) (i_seq v) = None
+      end
+  end.
+Proof. exact (tap_marker (fun _ => true) (fun _ _ _ _ => true) (fun b => b)). Qed.
+
 Print Assumptions C12_line_numbers_are_positions.
+Print Assumptions C12_tapscript_listing.
+Print Assumptions C12_tapscript_invariant_start.
+Print Assumptions C12_tapscript_invariant_step.
+Print Assumptions C12_tapscript_marker.
 Print Assumptions C12_two_section_listing.
 Print Assumptions C12_two_section_invariant_start.
 Print Assumptions C12_two_section_invariant_step.
